@@ -13,6 +13,18 @@ CLAIMED = {
    text="StableAbs.tla (stable indices, any non-live index may be handed out, Err leaves everything unchanged, counts/bounds/iterators describe the same element set) is model-checked by TLC for Ix3; the real StableGraph is driven in debug AND release profiles with seeded random histories, vacancy-stress scenarios that refill to the index limit after reverse/clear_edges/map/filter_map/retain/clone/conversion, and u8 limit histories; TLC validates every recorded trace against StableAbs (MGTrace.tla) including full observations.",
    note="Trusted: TLC + Json module, harness recorder. Exhaustive only for MaxIx=3,W={1}. Which vacancy is reused is deliberately unspecified (logged index resolves it). Three genuine defects were found and fixed (KNOWN_FINDINGS.json).",
    design="4/C02", technique="TLA+ spec + TLC model checking + trace validation of real executions"),
+ "C03": dict(
+   text="SGAbs.tla states GraphMap as a simple graph on node values (add_edge inserts endpoints and returns the previous weight, remove_node removes exactly the incident edges, undirected edges symmetric with the queried node as source / target, self-loops once, to_index/from_index inverse bijections); the real GraphMap (Directed/Undirected x RandomState, Fx and an all-colliding BuildHasher) is driven with seeded random histories biased to self-loops, reciprocal pairs and remove-then-re-add, plus clone and into_graph/from_graph round trips; every call is a trace event and TLC validates the trace against SGAbs (SGTrace.tla) including full observations (neighbors, neighbors_directed, edges, edges_directed, nodes, all_edges, contains_*, edge_weight for all key pairs).",
+   note="Trusted: TLC + Json module, harness recorder. No bounded model check of SGAbs (its actions are deterministic given the logged results): exploration of recorded histories. Keys are i32 from a small pool (<= 10 distinct).",
+   design="4/C03", technique="TLA+ spec + trace validation of real executions"),
+ "C04": dict(
+   text="SGAbs.tla states MatrixGraph as a simple graph with stable ids (add_node may return any non-live id; a reused id starts without edges because removal drops the incident edges; edge_count = |E|); the real MatrixGraph (Directed/Undirected x Option/NotZero x u8/u16/u32/usize) is driven with seeded random histories between existing nodes whose node counts cross the 4/8/16/32/64 capacity steps with heavy remove/re-add; TLC validates every trace against SGAbs including has_edge, edge weights, neighbors, edges, neighbors_directed/edges_directed, node and edge references.",
+   note="Trusted: TLC + Json module, harness recorder. Calls naming absent nodes are outside C04's quantifier and are not driven; a try_update_edge refusal between existing nodes (matrix not grown yet) is accepted as long as nothing changes. Two defects found and fixed (remove_node edge_count, Incoming edge orientation).",
+   design="4/C04", technique="TLA+ spec + trace validation of real executions"),
+ "C05": dict(
+   text="SGAbs.tla states Csr (duplicate add_edge returns false, rows strictly ascending, undirected edges in both rows, from_sorted_edges Ok iff strictly sorted and then equal to the incremental build, out-of-range endpoints Err/panic and unchanged) and adj::List (parallel edges kept, edge index = (from, rank) stable, find/update first match, insertion order); the real structures are driven with seeded random histories including 45-node hubs whose rows cross the 32-entry binary-search cutoff with probes around every neighbour; TLC validates every trace against SGAbs.",
+   note="Trusted: TLC + Json module, harness recorder. Queries on absent Csr nodes are documented panics and are not driven. Defects found and fixed: adj::List::update_edge accepted an out-of-range target; Csr undirected edge_references doubled edges (C09).",
+   design="4/C05", technique="TLA+ spec + trace validation of real executions"),
  "C07": dict(
    text="Cross-product driver: every algorithm covered by the oracles of C09, C10, C11, C12, C15, C16 and C20 is run on every encoding (Graph, StableGraph, MatrixGraph, GraphMap, Csr, adj::List) x history (fresh, shuffled, garbage-then-remove leaving vacant indices / swap renumbering) of the same abstract graph, with its own seeds; every run is judged by that algorithm's TLA+ oracle (equal where unique, equally valid and optimal where not), and a panic, hang or out-of-bounds on one encoding is a rejection. The algorithm x encoding applicability matrix is written to the evidence.",
    note="Trusted: the oracles of the individual properties. VF2 (Graph only by its bounds) and the walkers are covered in C13 / C08. Several sizing defects (node_count vs node_bound) were found this way and fixed; page_rank on index spaces with holes is a recorded finding.",
